@@ -82,8 +82,11 @@ def run_property(pid, tier, seed, relock=False, verbose=False):
     pref = (pid + ':') if P.get('kinds') else ''
     hints = {}
     for k, v in lock.items():
-        if isinstance(v, str) and '|' in v and k.startswith(pref) and (pref or ':' not in k.split('/')[0]):
-            hints[k[len(pref):]] = v.split('|', 1)[1]
+        if isinstance(v, str) and k.startswith(pref) and (pref or ':' not in k.split('/')[0]):
+            if '|' in v:
+                hints[k[len(pref):]] = v.split('|', 1)[1]
+            elif v == 'open' and tier != 'thorough':       # the thorough tier gives open obligations the whole ladder again
+                hints[k[len(pref):]] = 'open'
     tasks = []
     for q in P['functions']:
         if q not in db.contracts:
@@ -136,12 +139,16 @@ def run_property(pid, tier, seed, relock=False, verbose=False):
             lk = {k: v for k, v in lock.items() if not k.startswith(pid + ':')}
             for o, r in discharged:
                 lk[pid + ':' + o.id] = (r.h or 'P') + '|' + r.backend
+            for o, r in failed:
+                lk[pid + ':' + o.id] = 'open'
         else:
             gen = {o.id for o in obligations}
             heads = {o.id.split('/')[0] for o in obligations}       # function@case heads verified in this run: their stale ids are dropped
             lk = {k: v for k, v in lock.items() if ':' in k.split('/')[0] or k.split('/')[0] not in heads}
             for o, r in discharged:
                 lk[o.id] = (r.h or 'P') + '|' + r.backend
+            for o, r in failed:
+                lk[o.id] = 'open'
         json.dump(lk, open(LOCK, 'w'), indent=0, sort_keys=True)
         print('relocked %s: %d discharged obligations (%d not discharged)' % (pid, len(discharged), len(failed)))
         for o, r in failed:
@@ -201,7 +208,7 @@ def run_property(pid, tier, seed, relock=False, verbose=False):
         bounded['witnesses'] += out.get('witnesses', [])
 
     # ---- verdicts
-    violations, undecided = [], []
+    violations, undecided, open_obls = [], [], []
     os.makedirs(os.path.join(HERE, 'out', 'replays', pid), exist_ok=True)
 
     def replay_path(name):
@@ -210,7 +217,12 @@ def run_property(pid, tier, seed, relock=False, verbose=False):
 
     for o, r in failed:
         q = fn_of[o.id]
-        locked = (o.id in lock) if not P.get('kinds') else ((pid + ':' + o.id) in lock)
+        lv = lock.get(o.id if not P.get('kinds') else pid + ':' + o.id)
+        locked = lv is not None and lv != 'open'
+        if lv == 'open' and r.verdict == 'unknown':
+            # not discharged when the lock was written either: an OPEN obligation (listed in the evidence, never counted as proved)
+            open_obls.append({'id': o.id, 'text': o.meta['text'][:160]})
+            continue
         wit = None
         # (a) the solver's model, replayed natively
         if r.model:
@@ -326,6 +338,7 @@ def run_property(pid, tier, seed, relock=False, verbose=False):
             'lean_lemmas_rechecked_this_run': lean,
             'numpy_model_conformance': conformance,
             'not_discharged': [{'id': o.id, 'verdict': r.verdict} for o, r in failed],
+            'open_obligations': open_obls,
             'degraded': [{'function': q, 'reason': why} for q, why in degraded],
             'lock_missing': missing[:20],
             'evaluations': max(bounded['evaluations'], 1), 'distinct_nontrivial': bounded['distinct_nontrivial'],
@@ -342,6 +355,8 @@ def run_property(pid, tier, seed, relock=False, verbose=False):
     status = 'OK' if not new_violations and not undecided and not vacuous else ('VIOLATED' if new_violations else 'UNDECIDED')
     print('%s property=%s tier=%s obligations=%d discharged=%d bounded=%d degraded=%d wall=%.1fs' % (
         status, pid, tier, n_obl, n_dis, bounded['evaluations'], len(degraded), wall))
+    for u in open_obls:
+        print('OPEN obligation=%s (never discharged, not counted as proved: %s)' % (u['id'], u['text'][:100]))
     for u in undecided:
         print('UNDECIDED obligation=%s verdict=%s (%s)' % (u['obligation'], u['verdict'], u['text'][:100]))
     if new_violations:
@@ -413,6 +428,7 @@ def relock_all(seed=0, only=None):
                     st[0] += 1
                 else:
                     st[1] += 1
+                    lk[(pid + ':' + d['id']) if kinds else d['id']] = 'open'
                     print('  NOT DISCHARGED [%s] %s %s %s' % (pid, d['id'], d['verdict'], d['meta']['text'][:100]))
     json.dump(lk, open(LOCK, 'w'), indent=0, sort_keys=True)
     for pid in sorted(stats):
